@@ -174,6 +174,10 @@ func (w *World) nodeOp(n *Node, s *Step) {
 		if !n.crashed {
 			w.opQuery(n, s)
 		}
+	case "reimport":
+		if !n.crashed && n.cfg.Kind == "light" {
+			w.opReimport(n, s)
+		}
 	}
 }
 
@@ -286,4 +290,24 @@ func (w *World) opIngest(n *Node, s *Step) {
 		n.remembered[h] = true
 	}
 	w.checkNode(n, st, "ingest")
+}
+
+// opReimport: a light client replaces its cached proof by one it received from
+// a bridge for the same leaves — targets in the prover's (request) order, not sorted.
+func (w *World) opReimport(n *Node, s *Step) {
+	if len(n.held) < 2 {
+		return
+	}
+	st := w.blocks[n.at].Post
+	hs := sortedKeys(n.held)
+	r := SubRng(s.Seed, "reimport")
+	r.Shuffle(len(hs), func(i, j int) { hs[i], hs[j] = hs[j], hs[i] })
+	pr, ok := st.Layout().CanonProof(hs)
+	if !ok {
+		return
+	}
+	n.ch = padH(hs)
+	n.cp.Targets, n.cp.Proof = padU(pr.Targets), padH(pr.Proof)
+	w.stats.Reach["light_reimport_unsorted"]++
+	w.logf("%s: re-imported cached proof for %d leaves in prover order", n.name, len(hs))
 }
